@@ -259,7 +259,8 @@ FALLBACK = {
     "c12_padding": [("pad_field ascii", ["C12"], "padding / truncation on printable ASCII, widths 0..12")],
     "c15_formatters": [("human_count", ["C15"], "digit grouping on boundary values"),
                        ("formatted_duration", ["C15"], "HH:MM:SS on boundary durations"),
-                       ("human_float", ["C15"], "HumanFloatCount shape on boundary values")],
+                       ("human_float", ["C15"], "HumanFloatCount shape on boundary values"),
+                       ("human_duration", ["C15"], "HumanDuration rounding rule, unit switch and monotonicity at every unit boundary k*U, (k+0.5)*U, switch points, each +- 1 ms (444 durations up to Duration::MAX)")],
 }
 
 NOT_APPLICABLE = [
